@@ -378,7 +378,11 @@ func (f *forger) respond(ps *peerSpec, h int64) *lie {
 	if idx < 0 || idx >= len(ps.Resp) {
 		return &lie{Kind: "noblock", NoBlock: true, Height: h}
 	}
-	rs := ps.Resp[idx]
+	return f.respondAs(ps.Resp[idx], h)
+}
+
+// respondAs builds the response of the given kind for height h (initial <= h <= tip).
+func (f *forger) respondAs(rs respSpec, h int64) *lie {
 	right := &lie{Kind: "right", Block: f.canon(h), Canon: true, Height: h}
 	kind := rs.Kind
 	if len(kind) > 7 && kind[:7] == "commit-" && h == f.sc.Initial {
